@@ -285,6 +285,77 @@ def shard(col, kind, min_size, max_size, max_depth, k, nshards, metric_sets, sec
         shutil.rmtree(scratch, ignore_errors=True)
 
 
+# ------------------------------------------------------------------ executor leg
+def shard_executor(col, module, metrics, limit):
+    """Branch-less code objects through the REAL test-case executor.
+
+    Every enumerated test case of a corpus module (E2 population) is executed by the real
+    ``TestCaseExecutor`` under the given metric set while ``sys.monitoring`` PY_START events
+    (global, all threads) record which code objects the interpreter entered.  Oracle (statement:
+    "the entry of a branch-less code object is reported as covered exactly when the interpreter
+    took it"): for EVERY code object that ``SubjectProperties.branch_less_code_objects`` lists as a
+    goal after the execution, ``id in trace.executed_code_objects`` <=> the interpreter entered it
+    during this execution (or while importing the module: the import trace is merged into every
+    trace).  Test-statement code objects registered by the checked-coverage transformer are part
+    of that universe for as long as pynguin counts them as goals."""
+    import logging
+    import shutil
+    import sys
+    import tempfile
+
+    from mc import pipeline
+
+    logging.disable(logging.CRITICAL)
+    scratch = tempfile.mkdtemp(prefix="c03x_", dir="/dev/shm")
+    mon = sys.monitoring
+    tool = next(t for t in (3, 4, 5, 2) if mon.get_tool(t) is None)
+    mon.use_tool_id(tool, "verif-c03-executor")
+    started = {}   # id(code) -> code (instrumented code objects may hold unhashable constants)
+    mon.register_callback(tool, mon.events.PY_START, lambda code, off: started.__setitem__(id(code), code))
+    tag = "+".join(metrics)
+    try:
+        pipe = pipeline.Pipe(module, scratch, coverage=tuple(metrics))
+        props = pipe.sut.props
+        import_cos = set(pipe.sut.tracer.import_trace.executed_code_objects)
+        tests, _ = pipe.population(bound=1, limit=limit)
+        for t in tests:
+            started.clear()
+            mon.set_events(tool, mon.events.PY_START)
+            try:
+                res = pipe.executor.execute(t)
+            finally:
+                mon.set_events(tool, 0)
+            entered = set(started)   # ids; the code objects stay alive in `started` / the registry
+            reported = set(res.execution_trace.executed_code_objects)
+            col.count("evaluations")
+            col.count("executor_executions")
+            for coid in props.branch_less_code_objects:
+                meta = props.existing_code_objects[coid]
+                code = meta.code_object
+                was_entered = id(code) in entered or coid in import_cos
+                col.count("branchless_goals_checked")
+                kind = "test-statement" if code.co_filename == "<ast>" else "sut"
+                col.distinct("outcomes_executor", (module, tag, kind, was_entered, coid in reported))
+                if was_entered and coid not in reported:
+                    col.violation(f"C03|{tag}|executor|branchless-code-object-entered-not-reported|{kind}",
+                                  f"{module}: code object {coid} ({code.co_filename}:{code.co_name}) is listed by "
+                                  f"branch_less_code_objects and was entered while executing\n{t.to_code()}"
+                                  "but is not in executed_code_objects (branch coverage counts it as uncovered)",
+                                  {"leg": "executor", "module": module, "metrics": list(metrics),
+                                   "test": t.to_code(), "limit": limit}, rank=t.size())
+                elif coid in reported and not was_entered:
+                    col.violation(f"C03|{tag}|executor|branchless-code-object-reported-not-entered|{kind}",
+                                  f"{module}: code object {coid} ({code.co_filename}:{code.co_name})\n{t.to_code()}",
+                                  {"leg": "executor", "module": module, "metrics": list(metrics),
+                                   "test": t.to_code(), "limit": limit}, rank=t.size())
+        pipe.close()
+    finally:
+        mon.set_events(tool, 0)
+        mon.register_callback(tool, mon.events.PY_START, None)
+        mon.free_tool_id(tool)
+        shutil.rmtree(scratch, ignore_errors=True)
+
+
 def plan(ctx):
     """Jobs of a tier: (label, [shard args]).  quick: sizes <= 2 and the seeds under every metric set, size 3
     under the primary metric set only; thorough: sizes <= 3 at depth <= 3 and the seeds under every metric set."""
@@ -312,6 +383,12 @@ def run(ctx):
 
     n, d, jobs = plan(ctx)
     par.run_shards("props.c03_branch_coverage:shard", jobs, ctx.workers, ctx)
+    xmods = ["numeric", "shapes", "lambdas"] if ctx.quick else ["numeric", "shapes", "lambdas", "containers",
+                                                               "raising", "enums"]
+    xsets = [("BRANCH",), ("BRANCH", "CHECKED"), ("BRANCH", "LINE", "CHECKED")]
+    par.run_shards("props.c03_branch_coverage:shard_executor",
+                   [(m, ms, 25 if ctx.quick else 120) for m in xmods for ms in xsets], ctx.workers, ctx)
+    ctx.require(ctx.col.counters.get("branchless_goals_checked", 0) > 50, "vacuous: executor leg checked nothing")
 
     c = ctx.col.counters
     soft_failed = []
@@ -378,6 +455,12 @@ def replay(ctx, data):
     import shutil
     import tempfile
 
+    if data.get("leg") == "executor":
+        from mc.ctx import Collector
+        col = Collector()
+        shard_executor(col, data["module"], tuple(data["metrics"]), data.get("limit", 25))
+        ctx.merge(col)
+        return
     scratch = tempfile.mkdtemp(prefix="c03r_", dir="/dev/shm")
     try:
         meta = dict(data.get("meta") or {})
